@@ -46,7 +46,7 @@ lemma_check() {
 
 # every group that exists, in import order
 ALL=""
-for g in Read Write Append TTH TTH2 Skip Fc Stream Tpl TTHDecode StreamW; do [ -f $V/lean/Verif/Lemmas/Funcs/$g.lean ] && ALL="$ALL $g"; done
+for g in Read Write Append TTH TTH2 Skip Fc Stream TplG Tpl TTHDecode StreamW RdI StreamR StreamSkip Dec FcW TTHEncode; do [ -f $V/lean/Verif/Lemmas/Funcs/$g.lean ] && ALL="$ALL $g"; done
 
 fresh; gen "$S/base.lean"
 echo "== baseline: $(grep -c '^def ' "$S/base.lean") defs, $(grep -c UNSUPPORTED "$S/base.lean") unsupported; lemma files against it:"
@@ -84,11 +84,18 @@ mutant "skipType list loop i > e"       protocol/thrift/binary.go '/case LIST, S
 mutant "skipType struct field id 1 byte" protocol/thrift/binary.go 's|i += 2 // Field ID|i += 1 // Field ID|' Skip
 mutant "skipType maxdepth not decremented" protocol/thrift/binary.go '/case STRUCT:/,/default:/s/ft, maxdepth-1)/ft, maxdepth)/' Skip
 mutant "p2i32 byte order"               protocol/thrift/utils.go 's/unsafe.Add(p, 1)))<<16/unsafe.Add(p, 1)))<<8/' Skip
+mutant "BufferReader.ReadI32 next(3)"    protocol/thrift/bufferreader.go '/func (r \*BufferReader) ReadI32/,/^}/s/r.next(4)/r.next(3)/' "TplG Tpl RdI StreamR"
+mutant "BufferReader.ReadString no sign test" protocol/thrift/bufferreader.go '/func (r \*BufferReader) ReadBinary/,/^}/s/if sz < 0 {/if sz < -1 {/' "TplG Tpl RdI StreamR"
+mutant "BufferReader.skipType depth kept" protocol/thrift/bufferreader.go '/func (r \*BufferReader) skipType/,/^}/s/maxdepth-1)/maxdepth)/' "TplG Tpl RdI StreamSkip"
+mutant "SkipDecoderTpl.Skip field id 3 bytes" protocol/thrift/skipdecoder_tpl.go 's/p.r.SkipN(2); err != nil { \/\/ Field ID/p.r.SkipN(3); err != nil { \/\/ Field ID/' "TplG Tpl"
+mutant "BytesSkipDecoder.SkipN >= len"   protocol/thrift/skipdecoder.go '/func (p \*BytesSkipDecoder) SkipN/,/^}/s/len(p.b) >= p.n+n/len(p.b) > p.n+n/' "TplG Tpl RdI Dec"
+mutant "Base.FastWriteNocopy map header type" protocol/thrift/base/k-base.go '/func (p \*Base) FastWriteNocopy/,/^}/s/b\[off\] = 13/b[off] = 12/' "FcW"
+mutant "ttheader.Encode size field \/2"  protocol/ttheader/encode.go 's|uint16(headerInfoSize/4)|uint16(headerInfoSize/2)|' "TTHEncode"
 mutant "IsStreaming flag mask"           protocol/ttheader/utils.go 's/&uint16(HeaderFlagsStreaming) != 0/\&uint16(HeaderFlagsStreaming) == uint16(HeaderFlagsStreaming)/' TTH
 fi
 
 if [ "${1:-all}" != "mutants" ]; then
-for p in $V/seeded/harmless/refac*.diff $V/seeded/harmless/refactor_skipstr.diff $V/seeded/harmless/structural/refac*.diff $V/seeded/harmless/funcs/*.diff $V/seeded/harmless/funcs2/*.diff; do
+for p in $V/seeded/harmless/refac*.diff $V/seeded/harmless/refactor_skipstr.diff $V/seeded/harmless/structural/refac*.diff $V/seeded/harmless/funcs/*.diff $V/seeded/harmless/funcs2/*.diff $V/seeded/harmless/funcs3/refac*.diff $V/seeded/harmless/funcs4/refac9.diff $V/seeded/harmless/funcs4/refac1[0-6].diff; do
   [ -f "$p" ] || continue
   fresh
   ( cd "$S/repo" && git apply --whitespace=nowarn "$p" 2>/dev/null ) || { echo "== harmless $(echo $p | sed "s|$V/seeded/harmless/||"): does not apply to the current tree (skipped)"; continue; }
